@@ -30,7 +30,16 @@ class C07(Property):
         return {"examples": 10000 if tier == "quick" else 120000, "shards": 16}
 
     def strategy(self, tier):
-        return st.one_of(T.time_courses(mode="lattice", tier=tier), T.time_courses(mode="motion", tier=tier))
+        def backwards(spec):
+            # one history in eight is tracked backwards in time (the frames and their, now decreasing, time stamps reversed, as
+            # obtained from the slice etc[::-1]); the statement relates consecutive frames and does not depend on the direction
+            if spec["frames"] and sum(len(f) for f in spec["frames"]) % 8 == 3:
+                spec = dict(spec, frames=spec["frames"][::-1], times=spec["times"][::-1], backwards=True)
+                if "ids" in spec:
+                    spec["ids"] = spec["ids"][::-1]
+            return spec
+
+        return st.one_of(T.time_courses(mode="lattice", tier=tier), T.time_courses(mode="motion", tier=tier)).map(backwards)
 
     def exhaustive_jobs(self, tier):
         return T.lattice_jobs(4 if tier == "quick" else 5)
@@ -58,6 +67,8 @@ class C07(Property):
         md = spec["max_dist"]
         md = np.inf if md in (None, "inf") else float(md)
         ctx.cls(spec["mode"], method, f"dim{spec['dim']}", "grid" if grid is not None else "nogrid")
+        if spec.get("backwards"):
+            ctx.cls("backwards-in-time")
         links = set()
         first_of_track = set()
         if method == "overlap":
